@@ -9,6 +9,7 @@ package main
 
 import (
 	"bytes"
+	"crypto/aes"
 	"crypto/cipher"
 	"crypto/ecdsa"
 	"crypto/hmac"
@@ -16,9 +17,11 @@ import (
 	"crypto/rsa"
 	"crypto/sha1"
 	"crypto/sha256"
+	"encoding/binary"
 	"fmt"
 	"net"
 	"runtime"
+	"strings"
 	"time"
 
 	"github.com/tjfoc/gmsm/gmtls"
@@ -379,6 +382,13 @@ func runServerScript(c *c15Case) (c15Obs, error) {
 	if c.Role == "client_tls" && !c.Ca && c.Op.How == "noccs_plainfin" {
 		return runTLSServerScript(c)
 	}
+	if strings.HasPrefix(c.Op.How, "reneg_") {
+		if c.Role == "client_tls" && !c.Ca {
+			return runTLSRenegScript(c)
+		}
+		obs.Skipped = "scripted renegotiation: TLS client only"
+		return obs, nil
+	}
 	if c.Role != "client_gm" || c.Ca {
 		obs.Skipped = "scripted servers: GMSSL client (all scripts), TLS client (noccs_plainfin)"
 		return obs, nil
@@ -657,6 +667,255 @@ func runTLSServerScript(c *c15Case) (c15Obs, error) {
 			obs.EutPanic = fmt.Sprint(r.p)
 		} else {
 			obs.EutComplete = cli.ConnectionState().HandshakeComplete
+		}
+	case <-time.After(12 * time.Second):
+		obs.Hang = true
+	}
+	select {
+	case e := <-script:
+		obs.PeerErr = e
+	case <-time.After(time.Second):
+	}
+	obs.Applied = true
+	return obs, nil
+}
+
+// ---- a scripted TLS 1.2 server that renegotiates (TLS_RSA_WITH_AES_128_GCM_SHA256) ----
+// An honest first handshake; then HelloRequest and a second handshake that is correct in every respect (transcript, master
+// secret, verify_data) except one: "reneg_noccs" - the server sends no ChangeCipherSpec, so its Finished and the
+// application data behind it still travel under the keys of the first handshake.  "reneg_honest" is the control (the
+// second handshake completes and the data arrives).
+type gcmHalf struct {
+	aead cipher.AEAD
+	iv   []byte
+	seq  uint64
+}
+
+func newGCMHalf(key, iv []byte) *gcmHalf {
+	b, _ := aes.NewCipher(key)
+	a, _ := cipher.NewGCM(b)
+	return &gcmHalf{aead: a, iv: iv}
+}
+
+func (h *gcmHalf) aad(typ byte, n int) []byte {
+	a := make([]byte, 13)
+	binary.BigEndian.PutUint64(a, h.seq)
+	a[8], a[9], a[10], a[11], a[12] = typ, 3, 3, byte(n>>8), byte(n)
+	return a
+}
+
+func (h *gcmHalf) seal(typ byte, pt []byte) []byte {
+	explicit := make([]byte, 8)
+	binary.BigEndian.PutUint64(explicit, h.seq)
+	ct := h.aead.Seal(nil, append(append([]byte(nil), h.iv...), explicit...), pt, h.aad(typ, len(pt)))
+	h.seq++
+	body := append(explicit, ct...)
+	return append([]byte{typ, 3, 3, byte(len(body) >> 8), byte(len(body))}, body...)
+}
+
+func (h *gcmHalf) open(r *record) ([]byte, error) {
+	if len(r.body) < 24 {
+		return nil, fmt.Errorf("short record")
+	}
+	pt, err := h.aead.Open(nil, append(append([]byte(nil), h.iv...), r.body[:8]...), r.body[8:], h.aad(r.typ(), len(r.body)-24))
+	h.seq++
+	return pt, err
+}
+
+func runTLSRenegScript(c *c15Case) (c15Obs, error) {
+	var obs c15Obs
+	f, err := loadFixtures()
+	if err != nil {
+		return obs, err
+	}
+	pc, ps := tcpPair()
+	if pc == nil {
+		return obs, fmt.Errorf("no loopback connection")
+	}
+	defer pc.Close()
+	defer ps.Close()
+	cli := gmtls.Client(pc, &gmtls.Config{RootCAs: f.rsaCA, ServerName: "localhost", MinVersion: gmtls.VersionTLS12, MaxVersion: gmtls.VersionTLS12,
+		CipherSuites: []uint16{gmtls.TLS_RSA_WITH_AES_128_GCM_SHA256}, Renegotiation: gmtls.RenegotiateFreelyAsClient})
+	type res struct {
+		err error
+		n   int
+		p   interface{}
+	}
+	done := make(chan res, 1)
+	go func() {
+		var r res
+		defer func() {
+			if p := recover(); p != nil {
+				buf := make([]byte, 2048)
+				r.p = fmt.Sprint(p, " @ ", string(buf[:runtime.Stack(buf, false)]))
+			}
+			done <- r
+		}()
+		if r.err = cli.Handshake(); r.err != nil {
+			r.err = fmt.Errorf("first handshake: %v", r.err)
+			return
+		}
+		cli.SetReadDeadline(time.Now().Add(8 * time.Second))
+		buf := make([]byte, 64)
+		r.n, r.err = cli.Read(buf) // the HelloRequest arrives here: the second handshake runs inside Read
+	}()
+	script := make(chan string, 1)
+	go func() {
+		ps.SetDeadline(time.Now().Add(8 * time.Second))
+		fail := func(s string) { script <- s; ps.Close() }
+		certMsg := func() []byte {
+			var list []byte
+			for _, der := range f.rsa.Certificate {
+				list = append(list, byte(len(der)>>16), byte(len(der)>>8), byte(len(der)))
+				list = append(list, der...)
+			}
+			return hsMsg(11, append([]byte{byte(len(list) >> 16), byte(len(list) >> 8), byte(len(list))}, list...))
+		}
+		hello := func(sr []byte) []byte {
+			sh := append([]byte{3, 3}, sr...)
+			return hsMsg(2, append(sh, 0, 0x00, 0x9c, 0))
+		}
+		keys := func(master, cr, sr []byte) (cw, sw *gcmHalf) {
+			kb := prfSHA256(master, "key expansion", append(append([]byte(nil), sr...), cr...), 40)
+			return newGCMHalf(kb[0:16], kb[32:36]), newGCMHalf(kb[16:32], kb[36:40])
+		}
+		pmsOf := func(cke []byte) ([]byte, bool) {
+			pms, err := rsa.DecryptPKCS1v15(rand.Reader, f.rsa.PrivateKey.(*rsa.PrivateKey), cke[6:])
+			return pms, err == nil && len(pms) == 48
+		}
+		// ---- first handshake, in the clear up to ChangeCipherSpec ----
+		r, err := readRecord(ps)
+		if err != nil || r.typ() != 22 || len(r.body) < 38 || r.body[0] != 1 {
+			fail("no ClientHello")
+			return
+		}
+		cr, sr := r.body[6:38], make([]byte, 32)
+		rand.Read(sr)
+		transcript := append([]byte(nil), r.body...)
+		plain := func(body []byte) {
+			transcript = append(transcript, body...)
+			ps.Write(append([]byte{22, 3, 3, byte(len(body) >> 8), byte(len(body))}, body...))
+		}
+		plain(hello(sr))
+		plain(certMsg())
+		plain(hsMsg(14, nil))
+		r, err = readRecord(ps)
+		if err != nil || r.typ() != 22 || len(r.body) < 7 || r.body[0] != 16 {
+			fail("no ClientKeyExchange")
+			return
+		}
+		pms, ok := pmsOf(r.body)
+		if !ok {
+			fail("pre-master secret does not decrypt")
+			return
+		}
+		transcript = append(transcript, r.body...)
+		master := prfSHA256(pms, "master secret", append(append([]byte(nil), cr...), sr...), 48)
+		cw, sw := keys(master, cr, sr)
+		if r, err = readRecord(ps); err != nil || r.typ() != 20 {
+			fail("no ChangeCipherSpec from the client")
+			return
+		}
+		if r, err = readRecord(ps); err != nil {
+			fail("no Finished from the client")
+			return
+		}
+		cfin, err := cw.open(r)
+		th := sha256.Sum256(transcript)
+		if err != nil || !bytes.Equal(cfin, hsMsg(20, prfSHA256(master, "client finished", th[:], 12))) {
+			fail("the client's first Finished does not open / verify (script and client disagree)")
+			return
+		}
+		transcript = append(transcript, cfin...)
+		th = sha256.Sum256(transcript)
+		ps.Write([]byte{20, 3, 3, 0, 1, 1})
+		ps.Write(sw.seal(22, hsMsg(20, prfSHA256(master, "server finished", th[:], 12))))
+		// ---- HelloRequest, second handshake under the first one's keys ----
+		ps.Write(sw.seal(22, hsMsg(0, nil)))
+		next := func(want byte) []byte {
+			r, err := readRecord(ps)
+			if err != nil {
+				return nil
+			}
+			pt, err := cw.open(r)
+			if err != nil || r.typ() != 22 || len(pt) < 4 || pt[0] != want {
+				return nil
+			}
+			return pt
+		}
+		ch2 := next(1)
+		if ch2 == nil || len(ch2) < 38 {
+			fail("no second ClientHello")
+			return
+		}
+		cr2, sr2 := ch2[6:38], make([]byte, 32)
+		rand.Read(sr2)
+		t2 := append([]byte(nil), ch2...)
+		prot := func(body []byte) {
+			t2 = append(t2, body...)
+			ps.Write(sw.seal(22, body))
+		}
+		prot(hello(sr2))
+		prot(certMsg())
+		prot(hsMsg(14, nil))
+		cke2 := next(16)
+		if cke2 == nil {
+			fail("no second ClientKeyExchange")
+			return
+		}
+		pms2, ok := pmsOf(cke2)
+		if !ok {
+			fail("second pre-master secret does not decrypt")
+			return
+		}
+		t2 = append(t2, cke2...)
+		master2 := prfSHA256(pms2, "master secret", append(append([]byte(nil), cr2...), sr2...), 48)
+		cw2, sw2 := keys(master2, cr2, sr2)
+		if r, err = readRecord(ps); err != nil || r.typ() != 20 { // (protected under the old keys)
+			fail("no second ChangeCipherSpec from the client")
+			return
+		}
+		cw.seq++
+		if r, err = readRecord(ps); err != nil {
+			fail("no second Finished from the client")
+			return
+		}
+		cfin2, err := cw2.open(r)
+		th2 := sha256.Sum256(t2)
+		if err != nil || !bytes.Equal(cfin2, hsMsg(20, prfSHA256(master2, "client finished", th2[:], 12))) {
+			fail("the client's second Finished does not open / verify (script and client disagree)")
+			return
+		}
+		t2 = append(t2, cfin2...)
+		th2 = sha256.Sum256(t2)
+		sfin2 := hsMsg(20, prfSHA256(master2, "server finished", th2[:], 12))
+		if c.Op.How == "reneg_honest" {
+			ps.Write(sw.seal(20, []byte{1}))
+			ps.Write(sw2.seal(22, sfin2))
+			ps.Write(sw2.seal(23, []byte("hello")))
+		} else {
+			// no ChangeCipherSpec: Finished and data still under the keys of the first handshake
+			ps.Write(sw.seal(22, sfin2))
+			ps.Write(sw.seal(23, []byte("hello")))
+		}
+		script <- ""
+		for i := 0; i < 4; i++ {
+			if _, err := readRecord(ps); err != nil {
+				return
+			}
+		}
+	}()
+	select {
+	case r := <-done:
+		obs.EutReturned = true
+		if r.err != nil {
+			obs.EutErr = r.err.Error()
+		}
+		if r.p != nil {
+			obs.EutPanic = fmt.Sprint(r.p)
+		} else {
+			// "complete" here: application data was delivered after the second handshake
+			obs.EutComplete = r.err == nil && r.n > 0
 		}
 	case <-time.After(12 * time.Second):
 		obs.Hang = true
